@@ -13,6 +13,9 @@ def gen_case(seed, idx, ncycles):
 def run_impl(case):
     rnd = lib.rng_for(case["seed"], case["idx"], 1616)
     n = rnd.choice([1, 2, 3, 4, 5, 8, 9])
+    xs = lib.rng_for(case["seed"], case["idx"], 1636).random()
+    if xs < 0.1:
+        n = (6, 7, 10, 12, 13, 16, 17, 20, 24, 33)[int(xs / 0.1 * 10)]
     dw = rnd.choice([8, 8, 16, 32])
     stages = rnd.randint(0, 3)
     # minimal address width for the four registers, plus 0..2
